@@ -271,4 +271,107 @@ theorem solveList_core (E : Engine σ V) (o : Opts) (ec : Int) (h0 : ¬ o.minIte
         exact this
 
 
+/-! ### Periods not reached keep their record -/
+
+theorem stamp_frame (w : World σ) (n : Nat) (t : Int) (s : Status) (k : Int) (j : Nat)
+    (h : pyIndex n t ≠ some j) :
+    (stamp w n t s k).status[j]? = w.status[j]? ∧ (stamp w n t s k).iters[j]? = w.iters[j]? := by
+  unfold stamp
+  cases hp : pyIndex n t with
+  | none => exact ⟨rfl, rfl⟩
+  | some i =>
+    have hij : i ≠ j := fun e => h (by rw [hp, e])
+    exact ⟨setAt_getElem?_ne _ i j _ hij, setAt_getElem?_ne _ i j _ hij⟩
+
+theorem pyIndex_nat_ne (n p j : Nat) (hp : p < n) (hne : p ≠ j) : pyIndex n (p : Int) ≠ some j := by
+  unfold pyIndex
+  have h0 : (0 : Int) ≤ (p : Int) := Int.natCast_nonneg p
+  have h1 : ((p : Nat) : Int) < (n : Int) := by exact_mod_cast hp
+  simp only [h0, h1, if_true]
+  intro e
+  apply hne
+  have := Option.some.inj e
+  simpa using this
+
+/-- The wrapper's zip loop writes `status` / `iterations` only at the positions it is handed. -/
+theorem dispatchList_frame (o : Opts) (n : Nat) (j : Nat) :
+    ∀ (l : List (Nat × PeriodOut)) (w : World σ), (∀ e ∈ l, e.1 ≠ j) → (∀ e ∈ l, e.1 < n) →
+      (dispatchList o n l w).1.status[j]? = w.status[j]? ∧ (dispatchList o n l w).1.iters[j]? = w.iters[j]? := by
+  intro l
+  induction l with
+  | nil => intro w _ _; exact ⟨rfl, rfl⟩
+  | cons e rest ih =>
+    intro w hj hn
+    obtain ⟨p, r⟩ := e
+    have hp := pyIndex_nat_ne n p j (hn (p, r) (by simp)) (hj (p, r) (by simp))
+    have hrest := fun w' => ih w' (fun e he => hj e (by simp [he])) (fun e he => hn e (by simp [he]))
+    have hs := fun s k => stamp_frame w n (p : Int) s k j hp
+    unfold dispatchList
+    split
+    · have := hrest (stamp w n p .solved r.iteration)
+      simp only [consFlag]
+      exact ⟨this.1.trans (hs _ _).1, this.2.trans (hs _ _).2⟩
+    · split
+      · split
+        · exact hs _ _
+        · have := hrest (stamp w n p .failed r.iteration)
+          simp only [consFlag]
+          exact ⟨this.1.trans (hs _ _).1, this.2.trans (hs _ _).2⟩
+      · split
+        · exact hs _ _
+        · split
+          · exact ⟨rfl, rfl⟩
+          · split
+            · exact ⟨rfl, rfl⟩
+            · split
+              · exact ⟨rfl, rfl⟩
+              · split
+                · have := hrest (stamp w n p .skipped r.iteration)
+                  simp only [consFlag]
+                  exact ⟨this.1.trans (hs _ _).1, this.2.trans (hs _ _).2⟩
+                · split <;> exact ⟨rfl, rfl⟩
+
+/-- Once an entry raises, the entries after it are never looked at. -/
+theorem dispatchList_stops (o : Opts) (n : Nat) (l2 : List (Nat × PeriodOut)) :
+    ∀ (l1 : List (Nat × PeriodOut)) (w : World σ) (e : WResult),
+      (dispatchList o n l1 w).2.1 = some e → dispatchList o n (l1 ++ l2) w = dispatchList o n l1 w := by
+  intro l1
+  induction l1 with
+  | nil => intro w e h; simp [dispatchList] at h
+  | cons x rest ih =>
+    intro w e h
+    obtain ⟨p, r⟩ := x
+    simp only [List.cons_append]
+    unfold dispatchList at h ⊢
+    split
+    · rename_i hc
+      simp only [hc, if_true, consFlag] at h
+      rw [ih _ e h]
+    · rename_i hc
+      simp only [hc, if_false] at h
+      split
+      · rename_i h0
+        simp only [h0, if_true] at h
+        split
+        · rfl
+        · rename_i hf
+          simp only [hf, if_false, consFlag] at h
+          rw [ih _ e h]
+      · rename_i h0
+        simp only [h0, if_false] at h
+        split
+        · rfl
+        · split
+          · rfl
+          · split
+            · rfl
+            · split
+              · rfl
+              · split
+                · rename_i h1 h2 h3 h4 h5
+                  simp only [h1, h2, h3, h4, h5, if_false, if_true, consFlag] at h
+                  rw [ih _ e h]
+                · split <;> rfl
+
+
 end Fsic.Fortran
